@@ -10,8 +10,40 @@ import c06, typemon
 STATS = {}
 
 
+SFX = {"I": "%", "L": "&", "S": "!", "D": "#"}
+TEXTNUM = ["0", "5", "-7", "32767", "32768", "-32768", "-32769", "70000", "2147483647", "2147483648", "-2147483648", "-2147483649",
+           "16777217", "1.23456789012", "0.1", "-0.3", "123456789.125", "99999999999999999999", "1e39", "-1e39", "1e309", "1d300"]
+
+
+def external_cases(pool):
+    """numbers that arrive as text (VAL, INPUT, READ) stored into every numeric type: judged by the monitor only"""
+    texts = []
+    for tt, sf in SFX.items():
+        for n in TEXTNUM:
+            texts.append(("ext:val/" + tt, 'T%s = VAL("%s")\r\nPRINT "ok"\r\n' % (sf, n), ""))
+            texts.append(("ext:val-elem/" + tt, 'DIM A%s(1)\r\nA%s(1) = VAL("%s")\r\nPRINT "ok"\r\n' % (sf, sf, n), ""))
+            texts.append(("ext:input/" + tt, 'INPUT T%s\r\nPRINT "ok"\r\n' % sf, n + "\r\n"))
+            texts.append(("ext:input-elem/" + tt, 'DIM A%s(1)\r\nINPUT A%s(1)\r\nPRINT "ok"\r\n' % (sf, sf), n + "\r\n"))
+            if "e" not in n and "d" not in n:
+                texts.append(("ext:read/" + tt, 'DATA %s\r\nREAD T%s\r\nPRINT "ok"\r\n' % (n, sf), ""))
+            texts.append(("ext:val-byval/" + tt, 'P VAL("%s")\r\nPRINT "ok"\r\nSUB P(X%s)\r\nY%s = X%s\r\nEND SUB\r\n' % (n, sf, sf, sf), ""))
+    reqs = [{"op": "run", "text": t, "stdin": si, "budget": 100000, "dump_final": True, "dumps": True, "max_dumps": 20} for _, t, si in texts]
+    resps = pool.map(reqs, timeout=30.0)
+    out = []
+    for (fam, t, si), resp in zip(texts, resps):
+        out.append({"fam": fam, "text": t, "prog": None, "stdin": si, "resp": resp or {}})
+        if resp and "panic" in resp:
+            STATS.setdefault("ext_panics", []).append((fam, t, si, resp["panic"]))
+    return out
+
+
 def post(cases, rep, pool):
-    STATS["mon"] = typemon.check("C06", cases, rep)
+    ext = external_cases(pool)
+    STATS["ext"] = len(ext)
+    STATS["mon"] = typemon.check("C06", list(cases) + ext, rep)
+    for fam, t, si, pn in STATS.get("ext_panics", []):
+        rep.violation({"family": fam, "rendered_text": t, "stdin": si, "panic": pn,
+                       "expected": "a value of the variable's type or a BASIC run-time error"}, {"panic", "ext"}, name="ext-panic")
 
 
 def extra(rep, pool, tier):
@@ -24,7 +56,7 @@ def extra(rep, pool, tier):
             "validated": mon.get("distinct", 0),
             "info": {"design_check": {"module": "MC_Values", "distinct_states": res.distinct,
                                       "invariants": ["CastOK", "ArithOK", "ArithExact", "UnaryOK", "FracOK"]},
-                     "typemon": mon}}
+                     "typemon": mon, "external_text_number_programs": STATS.get("ext", 0)}}
 
 
 def run(tier, replay):
@@ -34,10 +66,13 @@ def run(tier, replay):
              "FOR limit, array element, record field, by-ref copy-out, STATIC local) x source form (literal, typed "
              "variable, sum) x source type, plus READ and FUNCTION result; arith: + - * on INTEGER/LONG boundary pairs "
              "stored into each type; FOR counters running over the edge; fractional constants (ties excluded) rounded "
-             "into INTEGER/LONG through 5 routes; every value dumped from a numeric variable is checked by TypeMon; "
+             "into INTEGER/LONG through 5 routes; DOUBLE values that are not SINGLE values into SINGLE targets through every "
+             "route; numbers arriving as text (VAL, INPUT, READ; 22 texts incl. range ends, 1e39, 1e309) into every type; "
+             "every value dumped from a numeric variable is checked by TypeMon; "
              "distinct by text",
         assumptions=[
             "values outside the exactly representable domain are skipped by the spec (never judged)",
             "rounding ties (x.5) are not generated: 'rounding to nearest' does not fix them",
-            "TypeMon judges the value, not the variant tag (a whole number inside a SINGLE variable is fine)",
+            "TypeMon judges the value, not the variant tag (a whole number inside a SINGLE variable is fine; a DOUBLE "
+            "that is not a SINGLE value inside a SINGLE variable is not)",
         ], post=post, extra=extra, extra_req={"dump_final": True, "dumps": True, "max_dumps": 40})
